@@ -52,7 +52,7 @@ func init() {
 		c.Phase("partition")
 		N := uint64(60000)
 		if c.Thorough {
-			N = 600000
+			N = 1500000
 		}
 		for n := uint64(0); n < N; n++ {
 			if !c.Case(n) {
@@ -63,7 +63,7 @@ func init() {
 		c.Phase("relations")
 		reps := 1
 		if c.Thorough {
-			reps = 6
+			reps = 12
 		}
 		n := uint64(0)
 		for rep := 0; rep < reps; rep++ {
@@ -435,40 +435,60 @@ func c11Judge(c *mon.Ctx, in *c11In) {
 			}
 		}
 	} else {
-		wf := refmoney.Fee(want, q)
-		if ok1 {
-			if e1 != nil {
-				c.Violationf("C11:estimate-error-on-p2pkh-funded-tx:EstimateSize", "%v; %s", e1, describe())
-			} else if uint64(est) != want.Total {
-				c.Violationf("C11:estimate!=model:EstimateSize", "EstimateSize() = %d, model %d; %s", est, want.Total, describe())
-			} else {
-				c.Count("estimate:compared")
-			}
-		}
+		// The statement fixes no placeholder length: what is judged is the library's own
+		// estimate (its internal consistency, the data partition, that it is not below the
+		// current size, and - below - that it is not below the signed size), and the fee
+		// triple / predicate computed from THAT estimate. Agreement with the model's
+		// 107-byte placeholder is recorded, not judged.
+		var ez refmoney.Size // the library's estimate
+		haveEst := false
 		if ok2 {
 			if e2 != nil || estT == nil {
 				c.Violationf("C11:estimate-error-on-p2pkh-funded-tx:EstimateSizeWithTypes", "%v; %s", e2, describe())
-			} else if estT.TotalBytes != want.Total || estT.TotalStdBytes != want.Std || estT.TotalDataBytes != want.Data {
-				c.Violationf("C11:estimate!=model:EstimateSizeWithTypes", "EstimateSizeWithTypes() = %+v, model %+v; %s", *estT, want, describe())
+			} else {
+				ez, haveEst = refmoney.Size{Total: estT.TotalBytes, Std: estT.TotalStdBytes, Data: estT.TotalDataBytes}, true
+				c.Count("estimate:compared")
+				if ez == want {
+					c.Count("estimate:equals-model-with-107-byte-placeholder")
+				} else {
+					c.Count("estimate:differs-from-model-with-107-byte-placeholder(not judged)")
+				}
+				if ez.Std+ez.Data != ez.Total {
+					c.Violationf("C11:estimate:std+data!=total", "EstimateSizeWithTypes() = %+v; %s", *estT, describe())
+				}
+				if ez.Data != z.Data {
+					c.Violationf("C11:estimate:data-bytes", "estimated TotalDataBytes = %d, script bytes of the data-carrier outputs = %d; %s", ez.Data, z.Data, describe())
+				}
+				if ez.Total < z.Total {
+					c.Violationf("C11:estimate-below-current-size", "estimated %d < current serialised size %d; %s", ez.Total, z.Total, describe())
+				}
 			}
 		}
-		if ok3 {
+		if ok1 {
+			if e1 != nil {
+				c.Violationf("C11:estimate-error-on-p2pkh-funded-tx:EstimateSize", "%v; %s", e1, describe())
+			} else if haveEst && uint64(est) != ez.Total {
+				c.Violationf("C11:estimate:EstimateSize!=EstimateSizeWithTypes.TotalBytes", "EstimateSize() = %d, EstimateSizeWithTypes().TotalBytes = %d; %s", est, ez.Total, describe())
+			}
+		}
+		wf := refmoney.Fee(ez, q)
+		if ok3 && haveEst {
 			if e3 != nil || fees == nil {
 				c.Violationf("C11:estimate-error-on-p2pkh-funded-tx:EstimateFeesPaid", "%v; %s", e3, describe())
 			} else {
 				c.Count("fees:compared")
 				if bigU(fees.StdFeePaid).Cmp(wf.Std) != 0 {
-					c.Violationf("C11:fee:standard!=floor(std*rate)", "StdFeePaid = %d, floor(%d*%d/%d) = %v; %s", fees.StdFeePaid, want.Std, in.Quote.StdSat, in.Quote.StdBytes, wf.Std, describe())
+					c.Violationf("C11:fee:standard!=floor(std*rate)", "StdFeePaid = %d, floor(%d*%d/%d) = %v; %s", fees.StdFeePaid, ez.Std, in.Quote.StdSat, in.Quote.StdBytes, wf.Std, describe())
 				}
 				if bigU(fees.DataFeePaid).Cmp(wf.Data) != 0 {
-					c.Violationf("C11:fee:data!=floor(data*rate)", "DataFeePaid = %d, floor(%d*%d/%d) = %v; %s", fees.DataFeePaid, want.Data, in.Quote.DataSat, in.Quote.DataBytes, wf.Data, describe())
+					c.Violationf("C11:fee:data!=floor(data*rate)", "DataFeePaid = %d, floor(%d*%d/%d) = %v; %s", fees.DataFeePaid, ez.Data, in.Quote.DataSat, in.Quote.DataBytes, wf.Data, describe())
 				}
 				if bigU(fees.TotalFeePaid).Cmp(wf.Total) != 0 {
-					c.Violationf("C11:fee:total!=std+data", "TotalFeePaid = %d, model %v; %s", fees.TotalFeePaid, wf.Total, describe())
+					c.Violationf("C11:fee:total!=std+data", "TotalFeePaid = %d, floor(std)+floor(data) = %v; %s", fees.TotalFeePaid, wf.Total, describe())
 				}
 			}
 		}
-		if ok4 {
+		if ok4 && haveEst {
 			wantPE := m.Enough(wf.Total)
 			cell := c11Cell(m, wf.Total)
 			if e4 != nil {
@@ -479,6 +499,9 @@ func c11Judge(c *mon.Ctx, in *c11In) {
 					c.Violationf("C11:predicate:EstimateIsFeePaidEnough:"+cell, "returned %v; inputs %v, outputs %v, fee on the estimated size %v; %s", pe, m.TotalIn(), m.TotalOut(), wf.Total, describe())
 				}
 			}
+		}
+		if !haveEst {
+			complete = false
 		}
 	}
 	// ---- the predicate on the actual size needs no spent scripts
